@@ -2,6 +2,9 @@
 #include "interp.hpp"
 #include <cstdlib>
 #include <sstream>
+#include <csignal>
+#include <sys/time.h>
+#include <unistd.h>
 
 namespace vf {
 static thread_local HookState g_hook;
@@ -28,6 +31,14 @@ RunCtx makeCtx(const std::string &tag) {
         }
     }
     return c;
+}
+static void caseCpuHandler(int) { const char m[] = "\nCPU-BUDGET-EXCEEDED: one case used more CPU time than VERIF_CASE_CPU_S allows\n"; ssize_t r = write(2, m, sizeof m - 1); (void)r; _exit(97); }
+void caseCpuGuard(bool on) {
+    static long limit = -1;
+    if (limit < 0) { const char *e = getenv("VERIF_CASE_CPU_S"); limit = e ? atol(e) : 180; signal(SIGPROF, caseCpuHandler); }
+    if (limit == 0) return;
+    struct itimerval it; it.it_interval.tv_sec = 0; it.it_interval.tv_usec = 0; it.it_value.tv_sec = on ? limit : 0; it.it_value.tv_usec = 0;
+    setitimer(ITIMER_PROF, &it, nullptr);
 }
 } // namespace vf
 
